@@ -191,8 +191,15 @@ func (p *c05Proc) Do(rq c05Request, deadlineMs int) (o c05Outcome, dead bool) {
 		return c05Outcome{Class: "hang", Detail: "the child process itself stopped answering"}, true
 	}
 	if err != nil {
-		// pipe closed: the process died
-		p.cmd.Wait()
+		// pipe closed: the process died (give it a moment to be reaped, then make sure it is gone)
+		done := make(chan struct{})
+		go func() { p.cmd.Wait(); close(done) }()
+		select {
+		case <-done:
+		case <-time.After(3 * time.Second):
+			p.cmd.Process.Kill()
+			<-done
+		}
 		msg, frame := c05PanicLine(p.stderr.String())
 		if msg == "" {
 			msg = fmt.Sprintf("child exited (%v) without a Go crash report: %v", p.cmd.ProcessState, err)
